@@ -49,6 +49,33 @@ class Outcome:
         return (self.kind, self.value if isinstance(self.value, (bool, int, type(None))) else "<expr>")
 
 
+class View:
+    """Model of a memoryview over a bytearray (or bytes): slicing gives a view on the same buffer, slice assignment writes through
+    and - like the real memoryview - refuses a value of another length."""
+    def __init__(self, base, lo: int = 0, hi: Optional[int] = None):
+        self.base = base
+        n = len(base)
+        self.lo, self.hi = lo, n if hi is None else hi
+
+    def __len__(self) -> int:
+        return max(0, self.hi - self.lo)
+
+    def tobytes(self) -> bytes:
+        return bytes(self.base[self.lo:self.hi])
+
+    def sub(self, lo, hi) -> "View":
+        a, b, _ = slice(lo, hi).indices(len(self))
+        return View(self.base, self.lo + a, self.lo + max(a, b))
+
+    def store(self, lo, hi, val) -> bool:
+        v = self.sub(lo, hi)
+        data = val.tobytes() if isinstance(val, View) else bytes(val)
+        if len(data) != len(v) or not isinstance(self.base, bytearray):
+            return False  # ValueError / TypeError in the real object
+        self.base[v.lo:v.hi] = data
+        return True
+
+
 class ModelRaise(Exception):
     """A modelled callee raised: the calling statement raises too."""
     def __init__(self, outcome):
@@ -90,6 +117,8 @@ class Evaluator:
                 return v
         if isinstance(e, ast.Subscript):
             base = self.ev(e.value)
+            if isinstance(base, View) and isinstance(e.slice, ast.Slice) and e.slice.step is None:
+                return base.sub(self.ev(e.slice.lower) if e.slice.lower is not None else None, self.ev(e.slice.upper) if e.slice.upper is not None else None)
             if isinstance(base, (tuple, str, bytes, bytearray)):
                 if isinstance(e.slice, ast.Slice):
                     lo = self.ev(e.slice.lower) if e.slice.lower is not None else None
@@ -151,6 +180,20 @@ class Evaluator:
             except (OverflowError, ValueError, TypeError):
                 raise Unsupported(e, "conversion error on the model")
             raise Unsupported(e)
+        if isinstance(e, ast.Call) and isinstance(e.func, ast.Name) and e.func.id == "memoryview" and len(e.args) == 1 and not e.keywords:
+            b = self.ev(e.args[0])
+            if isinstance(b, (bytes, bytearray)):
+                return View(b)
+            if isinstance(b, View):
+                return b
+            raise Unsupported(e)
+        if isinstance(e, ast.Call) and isinstance(e.func, ast.Name) and e.func.id in ("bytes", "bytearray", "len") and len(e.args) == 1 and not e.keywords:
+            try:
+                b = self.ev(e.args[0])
+            except Unsupported:
+                b = None
+            if isinstance(b, View):
+                return len(b) if e.func.id == "len" else (bytes if e.func.id == "bytes" else bytearray)(b.tobytes())
         if isinstance(e, ast.Call) and isinstance(e.func, ast.Name) and e.func.id == "isinstance" and len(e.args) == 2 and not e.keywords:
             tys = {"str": str, "bytes": bytes, "int": int, "bytearray": bytearray, "bool": bool, "list": tuple, "tuple": tuple}
             names = [e.args[1]] if isinstance(e.args[1], ast.Name) else list(e.args[1].elts) if isinstance(e.args[1], ast.Tuple) else None
@@ -259,6 +302,8 @@ class Evaluator:
                 return a ^ b
             if isinstance(op, ast.FloorDiv) and b != 0:
                 return a // b
+            if isinstance(op, ast.Div) and b != 0:
+                return a / b  # true division: a float, as in the analysed code (int(...) / math.ceil(...) bring it back)
             if isinstance(op, ast.Mod) and b != 0:
                 return a % b
             raise Unsupported(e)
@@ -414,6 +459,17 @@ class Evaluator:
             if not all(isinstance(a, int) for a in rargs) or len(range(*rargs)) > 4096:
                 raise Unsupported(st)
             return self._loop(st, range(*rargs))
+        if isinstance(st, ast.With) and all(isinstance(i.optional_vars, (ast.Name, type(None))) for i in st.items):
+            # context managers are modelled by their value (memoryview, model objects): bind and run the body
+            for i in st.items:
+                v = self.ev(i.context_expr)
+                if i.optional_vars is not None:
+                    self.env[i.optional_vars.id] = v
+            for s2 in st.body:
+                o = self.step(s2)
+                if o is not None:
+                    return o
+            return None
         if isinstance(st, ast.Continue):
             return Outcome("continue", None, st)
         if isinstance(st, ast.Break):
@@ -453,8 +509,16 @@ class Evaluator:
                 return None
             if isinstance(tgt, ast.Subscript) and st.value is not None:
                 base = self.ev(tgt.value)
+                if isinstance(base, View) and isinstance(tgt.slice, ast.Slice) and tgt.slice.step is None:
+                    val = self.ev(st.value)
+                    if not isinstance(val, (bytes, bytearray, View)):
+                        raise Unsupported(st)
+                    okv = base.store(self.ev(tgt.slice.lower) if tgt.slice.lower is not None else None, self.ev(tgt.slice.upper) if tgt.slice.upper is not None else None, val)
+                    return None if okv else Outcome("raise", "ValueError", st)
                 if isinstance(base, bytearray):
                     val = self.ev(st.value)
+                    if isinstance(val, View):
+                        val = val.tobytes()
                     if isinstance(tgt.slice, ast.Slice):
                         lo = self.ev(tgt.slice.lower) if tgt.slice.lower is not None else None
                         hi = self.ev(tgt.slice.upper) if tgt.slice.upper is not None else None
